@@ -161,3 +161,57 @@ package utils
 //@   ensures result != nil
 //@   pure
 //@ end
+
+// ---- event-time normalisation (C16) -----------------------------------------
+// A numeric timestamp v in unit seconds / milliseconds / nanoseconds is stored
+// as its millisecond instant.  The unit is told by magnitude: v < 99999999999
+// is seconds, v >= 1e18 is nanoseconds, otherwise milliseconds (the band
+// [1e14,1e18) -- microsecond magnitudes -- has no case in the code and is left
+// as "milliseconds" on both paths; see DESIGN.md C16).
+//@ spec msOfEpoch(v uint64) uint64 = ite(v >= 1000000000000000000, v / 1000000, ite(v >= 99999999999, v, v * 1000))
+//@ ghostdecl tsraw uint64
+//@ ghostdecl tsnum int
+
+//@ func IsTimeInMilli
+//@   props C16
+//@   ensures result == (tval >= 99999999999)
+//@   pure
+//@   safe
+//@ end
+
+//@ func IsTimeInNano
+//@   props C16
+//@   ensures result == (tval >= 1000000000000000000)
+//@   pure
+//@   safe
+//@ end
+
+// String path: the decimal text of an integer.  The parsed integer is tied to
+// the result through a ghost cell written where the code first uses it.
+//@ func ConvertTimestampToMillis
+//@   props C16
+//@   requires ghost(0, "tsnum") == 0
+//@   site call IsTimeInNano #1:
+//@     ghostset ghost(0, "tsraw") = parsed_value
+//@     ghostset ghost(0, "tsnum") = 1
+//@   ensures [numeric-text] implies(ghost(0, "tsnum") == 1, result1 == nil && result0 == msOfEpoch(ghost(0, "tsraw")))
+//@ end
+
+// Number path of the JSON extractor: must agree with the string path.
+//@ func ExtractTimeStamp
+//@   props C16
+//@   requires timestampKey != nil && ghost(0, "tsnum") == 0
+//@   site call IsTimeInNano #1:
+//@     ghostset ghost(0, "tsraw") = ts_millis
+//@     ghostset ghost(0, "tsnum") = 1
+//@   ensures [number-path-equals-string-path] implies(ghost(0, "tsnum") == 1, result == msOfEpoch(ghost(0, "tsraw")))
+//@ end
+
+//@ func normalizeIntToSeconds
+//@   props C16
+//@   ensures [ns] implies(value > 1000000000000000000, result1 == nil && int64(result0) == (value / 1000000000) % 4294967296)
+//@   ensures [ms] implies(value > 1000000000000 && value <= 1000000000000000000, result1 == nil && int64(result0) == (value / 1000) % 4294967296)
+//@   ensures [s] implies(value > 0 && value <= 1000000000000, result1 == nil && int64(result0) == value % 4294967296)
+//@   ensures [reject] implies(value <= 0, result1 != nil)
+//@   safe
+//@ end
